@@ -56,3 +56,45 @@ package gochannel
 //@   inv loop 1: sends(s.outputChannel) > old(sends(s.outputChannel)) ==> gf(lastSent, s) != nil && gf(lastSent, s).ackSentType == 2 && gf(lastSent, s).ctx == ctx [a-further-delivery-only-after-a-nack]
 //@   inv loop 1: sends(s.outputChannel) == old(sends(s.outputChannel)) ==> gf(lastSent, s) == entry(gf(lastSent, s)) [first-iteration]
 //@   modifies closed(s.outputChannel)
+
+// ---- the Pub/Sub (C04, C05, C07, C11) ----
+
+//@ type GoChannel
+//@   self g
+//@   monitor closedLock guards closed
+//@   monitor subscribersLock guards subscribers
+//@   monitor persistedMessagesLock guards persistedMessages
+//@   ownschan closing
+//@   invariant g.closing != nil && g.closed == closed(g.closing) [mon:closedLock:closed-flag-tells-the-closing-channel]
+//@   invariant g.subscribers != nil [mon:subscribersLock:subscriber-table-exists]
+//@   invariant g.persistedMessages != nil [mon:persistedMessagesLock:persisted-table-exists]
+
+//@ func (*GoChannel).isClosed
+//@   ghost atomic
+//@   requires g != nil
+//@   nopanic
+//@   ensures result == g.closed [reads-the-flag-under-its-lock]
+
+//@ func (*GoChannel).topicSubscribers
+//@   ghost holds g.subscribersLock
+//@   requires g != nil
+//@   nopanic
+//@   ensures !has(g.subscribers, topic) ==> result == nil && len(result) == 0 [no-subscribers-no-snapshot]
+//@   ensures has(g.subscribers, topic) ==> len(result) == len(g.subscribers[topic]) && (forall i int :: 0 <= i && i < len(result) ==> result[i] == g.subscribers[topic][i]) && (len(result) > 0 ==> fresh(base(result))) [a-private-snapshot-of-the-topics-subscribers-in-order]
+
+//@ func (*GoChannel).addSubscriber
+//@   ghost holds g.subscribersLock
+//@   requires g != nil && s != nil
+//@   nopanic
+//@   ensures has(g.subscribers, topic) && len(g.subscribers[topic]) == old(len(g.subscribers[topic])) + 1 && g.subscribers[topic][old(len(g.subscribers[topic]))] == s && (forall i int :: 0 <= i && i < old(len(g.subscribers[topic])) ==> g.subscribers[topic][i] == old(g.subscribers[topic][i])) [appended-to-its-topics-list]
+//@   ensures forall t string :: t != topic ==> has(g.subscribers, t) == old(has(g.subscribers, t)) && g.subscribers[t] == old(g.subscribers[t]) [other-topics-untouched]
+//@   modifies map(g.subscribers)
+
+//@ func (*GoChannel).removeSubscriber
+//@   ghost holds g.subscribersLock
+//@   requires g != nil && toRemove != nil
+//@   panics-when !(exists j int :: 0 <= j && j < len(g.subscribers[topic]) && g.subscribers[topic][j] == toRemove) [panics-exactly-when-the-subscriber-is-not-registered]
+//@   ensures len(g.subscribers[topic]) == old(len(g.subscribers[topic])) - 1 [one-entry-removed]
+//@   ensures forall t string :: t != topic ==> has(g.subscribers, t) == old(has(g.subscribers, t)) && g.subscribers[t] == old(g.subscribers[t]) [other-topics-untouched]
+//@   inv loop 1: removed == false && g.subscribers[topic] == old(g.subscribers[topic]) && (forall j int :: 0 <= j && j <= rangeindex ==> g.subscribers[topic][j] != toRemove) && (forall j int :: 0 <= j && j < len(g.subscribers[topic]) ==> g.subscribers[topic][j] == old(g.subscribers[topic][j])) [not-found-so-far-list-unchanged]
+//@   modifies map(g.subscribers)
